@@ -53,7 +53,13 @@ def e2e(case):
                 if obj.acc_p_energy_shed != 0 or obj.acc_q_energy_shed != 0:
                     viols.append(("e2e.iteration-start", f"iteration {info['it']} starts with {obj.name} holding cumulative energy not supplied {obj.acc_p_energy_shed} / {obj.acc_q_energy_shed} (nothing demanded yet)"))
         elif phase == "after_set_load":
-            st["p0"] = {b.name: (b.pload, b.qload) for b in ps.buses}
+            # the demand of the increment, from the load profiles themselves (not from the bus's load attribute, which could
+            # carry something over from an earlier increment)
+            i_ = info["inc"]
+            st["p0"] = {b.name: (sum(float(d[i_]) for d in b.pload_data) * b.n_customers, sum(float(d[i_]) for d in b.qload_data) * b.n_customers) for b in ps.buses}
+            for b in ps.buses:
+                if abs(b.pload - st["p0"][b.name][0]) > 1e-9 * max(1.0, abs(b.pload)):
+                    viols.append(("e2e.load-set", f"{b.name}, increment {i_}: load after set_load_and_cost is {b.pload}, the profiles give {st['p0'][b.name][0]}"))
             st["trafo_before"] = {b.name: b.trafo_failed for b in ps.buses}
         elif phase == "before_log":
             dt = (info["curr"] - info["prev"]).get_hours()
@@ -61,7 +67,10 @@ def e2e(case):
             for b in ps.buses:
                 p0, q0 = st["p0"].get(b.name, (0, 0))
                 base = 0 if b.trafo_failed else p0     # a failed transformer has shed and zeroed the profile load
-                extra = max(0.0, b.pload - base)       # charging load added by storage on the bus
+                # charging load added by storage on the bus, read from the storage units themselves (not from the bus, whose
+                # load could hold a stale amount)
+                extra = sum(max(0.0, float(x.p_inj)) for x in ps.batteries if x.bus is b) + \
+                        sum(max(0.0, float(x.curr_p_charge)) for x in ps.ev_parks if x.bus is b)
                 demand = (p0 + extra + ALPHA) * dt
                 s = b.p_energy_shed_stack
                 st["stacks"][b.name] = s
